@@ -133,3 +133,12 @@ chk("C09", "property-based testing of generated matching problems with an indepe
     "solve() returns, the harness' own evaluation of the user function at the container's knobs is within every active tolerance; if it "
     "raises with restore_if_fail, knobs and active flags equal log row 0 (bit-exact for unit weights, 4 ulp otherwise).",
     "trusted: CPython 3.12, numpy, Hypothesis; the harness' numpy user functions. Bounded search (n <= 4, m <= 5).", "DESIGN.md 4/C09")
+
+chk("C10", "property-based testing of generated step plans with a log-wide invariant, a write trace of the knob container and a metamorphic twin",
+    "Generated problems whose solution lies outside or far beyond per-knob limits, per-knob max_step (several exceeded at once), unit and "
+    "other knob weights, knobs / targets disabled persistently or through step()'s temporary arguments; a plan of 1..4 step() calls: every "
+    "log row and the container stay inside the closed limits, every Jacobian-step row moves each knob by at most its max_step, every write "
+    "the logging container saw to a disabled knob carries its old value, temporaries are active again afterwards, and a twin problem whose "
+    "disabled targets are replaced by other functions / values / weights yields a bit-identical knob trajectory and penalties.",
+    "trusted: CPython 3.12, numpy, Hypothesis. Tolerances: limits exact (4 ulp for weighted knobs), max_step + 2 ulp (8 ulp weighted). "
+    "Bounded search (n <= 4, m <= 5, <= 16 Jacobian steps per case).", "DESIGN.md 4/C10")
